@@ -64,7 +64,8 @@ def run_property(pid, tier, jobs=None, only=None):
     modname = f'vkopf.props.{pid.lower()}'
     sys.path.insert(0, ROOT)
     mod = importlib.import_module(modname)
-    obs = [o for o in mod.obligations() if tier in o.tiers]
+    # the thorough tier is a superset of the quick one
+    obs = [o for o in mod.obligations() if tier in o.tiers or (tier == 'thorough' and 'quick' in o.tiers)]
     if only:
         obs = [o for o in obs if o.fn in only]
     scale = float(os.environ.get('VKOPF_TIMEOUT_SCALE', '1'))
